@@ -169,7 +169,9 @@ def run(ctx):
         run_gen(ctx, 'PiecesCharsB', 4, 'strchars4')
         run_gen(ctx, 'PiecesStr', 4, 'strpieces4')
         run_gen(ctx, 'PiecesToks', 2, 'tokpairs')
+        run_gen(ctx, 'PiecesWords', 2, 'words')
     else:
+        run_gen(ctx, 'PiecesWords', 2, 'words')
         run_gen(ctx, 'PiecesChars', 4, 'chars4')
         run_gen(ctx, 'PiecesChars18', 5, 'chars5')
         run_gen(ctx, 'PiecesCharsB', 5, 'strchars5')
